@@ -228,7 +228,7 @@ func (g *gen) drawStep(rt *rapid.T) step {
 	}
 }
 
-const modelRule = "rapid state machine (rules new/write/writeNearEOF/read/truncate/seek/close) over QuotaEnforcing(BlockDeviceBacked(BitmapSectorAllocator)) on an in-memory device; sector sizes {1,2,3,4,8,16,512}, sector counts {1..8,63..65,127..129}, up to 5 files, zero and patterned hole sources; oracle: naive sparse-file model (bytes, EOF, partial writes, sector-granular data/hole map, quota arithmetic, sectors handed out == data sectors of the model) compared for every open file after every step, then everything closed and the full capacity re-obtained. Non-trivial: the allocator returned a short run while sectors were free (fragmentation), OR a file that lost content by shrinking grew again, OR a write was cut short by sector exhaustion; distinct by script hash"
+const modelRule = "rapid state machine (rules new/write/writeNearEOF/interleavedAppends/read/truncate/seek/close) over QuotaEnforcing(BlockDeviceBacked(BitmapSectorAllocator)) on an in-memory device; sector sizes {1,2,3,4,8,16,512}, sector counts {1..8,63..65,127..129}, up to 5 files, zero and patterned hole sources; oracle: naive sparse-file model (bytes, EOF, partial writes, sector-granular data/hole map, quota arithmetic, sectors handed out == data sectors of the model) compared for every open file after every step, then everything closed and the full capacity re-obtained. Non-trivial: the allocator returned a short run while sectors were free (fragmentation), OR a file that lost content by shrinking grew again, OR a write was cut short by sector exhaustion; distinct by script hash"
 
 func TestC15FilePoolModel(t *testing.T) {
 	rec := simkit.NewRecorder(t, "C15", "filepool-model", modelRule)
@@ -257,6 +257,52 @@ func TestC15FilePoolModel(t *testing.T) {
 			"read":     func(rt *rapid.T) { do(g.drawRead(rt)) },
 			"trunc":    func(rt *rapid.T) { do(g.drawTrunc(rt)) },
 			"seek":     func(rt *rapid.T) { do(g.drawSeek(rt)) },
+			"interleave": func(rt *rapid.T) {
+				// Two files grow in turns, one sector at a time, so their
+				// sectors alternate on the device; closing or shrinking
+				// one of them leaves maximally fragmented free space for
+				// whatever is written next.
+				open := g.e.openSlots()
+				if len(open) < 2 {
+					do(g.drawNew(rt))
+					return
+				}
+				i := rapid.IntRange(0, len(open)-1).Draw(rt, "fileA")
+				j := rapid.IntRange(0, len(open)-2).Draw(rt, "fileB")
+				if j >= i {
+					j++
+				}
+				rounds := rapid.IntRange(2, 6).Draw(rt, "rounds")
+				for r := 0; r < rounds; r++ {
+					for _, f := range []int{open[i], open[j]} {
+						off := g.e.files[f].m.size()
+						if off+int64(cfg.SS) > cfg.limit() {
+							continue
+						}
+						do(step{Op: "write", F: f, Off: off, Len: cfg.SS, Tag: g.nextTag()})
+					}
+				}
+				switch rapid.IntRange(0, 2).Draw(rt, "then") {
+				case 0:
+					do(step{Op: "close", F: open[j]})
+				case 1:
+					do(step{Op: "trunc", F: open[j], Off: 0})
+				}
+				if rapid.Bool().Draw(rt, "thenFill") {
+					// Use up (nearly) all free sectors in one write: the
+					// allocator has to wrap around into the gaps.
+					f := open[i]
+					off := g.e.files[f].m.size()
+					free := cfg.Sectors - g.e.modelDataSectors() - rapid.IntRange(0, 2).Draw(rt, "spare")
+					n := int64(free) * int64(cfg.SS)
+					if n > cfg.limit()-off {
+						n = cfg.limit() - off
+					}
+					if n > 0 {
+						do(step{Op: "write", F: f, Off: off, Len: int(n), Tag: g.nextTag()})
+					}
+				}
+			},
 			"close": func(rt *rapid.T) {
 				if rapid.Bool().Draw(rt, "closeAfterAll") {
 					do(g.drawClose(rt))
